@@ -8,7 +8,7 @@
    abstract value [fsn] whose listing ORDER is arbitrary (every theorem
    quantifies over it); special files appear only as [Other] = skipped. *)
 From Coq Require Import List ZArith Bool Permutation Sorted.
-From NT Require Import Sx Rose FsLoad FsLoadProofs FsSaveLoadProofs FsCanonProofs FsVisitProofs FsRepr FsReprProofs.
+From NT Require Import Sx Rose FsLoad FsLoadProofs FsSaveLoadProofs FsCanonProofs FsVisitProofs FsRepr FsReprProofs FsReprDecode.
 From NTGen Require Import Generated.
 Import ListNotations.
 Open Scope Z_scope.
@@ -194,6 +194,29 @@ Theorem C19_repr_calendar : forall z : Z,
   1 <= m <= 12 /\ 1 <= d <= month_len y m /\ days_from_civil y m d = z.
 Proof. exact civil_spec. Qed.
 Print Assumptions C19_repr_calendar.
+
+(* the quoted name ({self.name!r}) can be read back: a decoder of Python string literals
+   ([decode]: the quote, backslash, t n r, xhh, uhhhh and Uhhhhhhhh escapes) inverts [repr_str] on every
+   text of code points, whatever the Unicode database calls printable ([p]); so different
+   file names are always shown differently *)
+Theorem C19_repr_name_decodable : forall (p : Z -> bool) (s : text),
+  Forall cp_ok s -> decode (repr_str p s) = Some s.
+Proof. exact decode_repr_str. Qed.
+Print Assumptions C19_repr_name_decodable.
+
+Theorem C19_repr_name_injective : forall (p : Z -> bool) (a b : text),
+  Forall cp_ok a -> Forall cp_ok b -> repr_str p a = repr_str p b -> a = b.
+Proof. exact repr_str_injective. Qed.
+Print Assumptions C19_repr_name_injective.
+
+(* a name with both kinds of quotes, a backslash, TAB, U+00E9 (printable), U+200B (not), U+E0001 (not) *)
+Example C19_repr_name_sample :
+  repr_str (fun c => c =? 233) [105; 116; 39; 115; 32; 34; 120; 34; 92; 9; 233; 8203; 917505] =
+  [39; 105; 116; 92; 39; 115; 32; 34; 120; 34; 92; 92; 92; 116; 233; 92; 117; 50; 48; 48; 98;
+   92; 85; 48; 48; 48; 101; 48; 48; 48; 49; 39] /\
+  decode [39; 105; 116; 92; 39; 115; 32; 34; 120; 34; 92; 92; 92; 116; 233; 92; 117; 50; 48; 48; 98;
+          92; 85; 48; 48; 48; 101; 48; 48; 48; 49; 39] = Some [105; 116; 39; 115; 32; 34; 120; 34; 92; 9; 233; 8203; 917505].
+Proof. vm_compute. split; reflexivity. Qed.
 
 (* the size shown with ',' separators: removing the commas gives sign + decimal digits; a
    comma stands after every third digit from the right ([group3] works on the reversed digits) *)
